@@ -859,6 +859,22 @@ pub fn sibling_cases() -> Vec<(String, String, Vec<i64>)> {
     add("lambda parameter x applied to the enclosing x", format!("let f = (x: int) -> x + 1\n{}\n", e("f(x)")), vec![102]);
     add("while body: let x = x + 1 on every iteration reads the enclosing x", format!("var w = 0\nwhile w < 2 {{\nw += 1\nlet x = x + w\n{}\n}}\n", e("x")), vec![102, 103]);
     add("arm block: let x = x + 1 reads the enclosing x", format!("match 1 {{\n_ -> {{\nlet x = x + 1\n{}\n}}\n}}\n", e("x")), vec![102]);
+    // inside a lambda that CAPTURES x: a shadowing let in a nested block ends with the block (and with each loop iteration)
+    add(
+        "lambda capturing x: a nested block declares x, the lambda reads the captured x afterwards",
+        format!("let f = (c: bool) -> {{\nif c {{\nlet x = 115\n{}\n}}\n{}\nnil\n}}\nf(true)\nf(false)\n", e("x"), e("x")),
+        vec![115, 101, 101],
+    );
+    add(
+        "lambda capturing x: a loop body reads the captured x, then declares x, on every iteration",
+        format!("let g = () -> {{\nvar w = 0\nwhile w < 2 {{\nw += 1\n{}\nlet x = 115 + w\n{}\n}}\nnil\n}}\ng()\n", e("x"), e("x")),
+        vec![101, 116, 101, 117],
+    );
+    add(
+        "nested lambdas capturing x: the inner one shadows x in a match arm block and reads it afterwards",
+        format!("let h = () -> {{\nlet k = (n: int) -> {{\nmatch n {{\n1 -> {{\nlet x = 115\n{}\n}}\n_ -> nil\n}}\n{}\nnil\n}}\nk(1)\nk(2)\nnil\n}}\nh()\n", e("x"), e("x")),
+        vec![115, 101, 101],
+    );
     // every case ends by reading x again after all siblings have closed
     v.into_iter().map(|(n, b, mut x)| { x.push(101); (n, format!("let x = 101\n{b}vh_emit_int(x)\n"), x) }).collect()
 }
